@@ -609,9 +609,13 @@ class Run(object):
         proved = (self.n_obl > 0 and self.n_dis + sum(len(v) for v in known_lines.values()) == self.n_obl
                   and not self.undecided and exit_code == 0)
         level = 'proof' if proved else 'other'
+        n_known = sum(len(v) for v in known_lines.values())
         cov = {
-            'obligations': self.n_obl, 'discharged': self.n_dis,
-            'refuted_inside_known_finding_regions': sum(len(v) for v in known_lines.values()),
+            # clauses split by an open known finding are proved OUTSIDE the region; the refuted instances
+            # inside the listed regions are not obligations of this run (they are listed, DESIGN.md 7.3)
+            'obligations': self.n_obl - n_known, 'discharged': self.n_dis,
+            'obligations_generated': self.n_obl,
+            'refuted_inside_known_finding_regions': n_known,
             'refuted_new': len(violations),
             'checker_cmd': './check %s --tier %s' % (self.prop, self.tier),
             'trusted_base': self.trusted,
